@@ -88,7 +88,6 @@ class KnownFindings(object):
             if e["rule"] != finding.rule:
                 continue
             for k in e.get("keys", [e.get("key")] if e.get("key") else []):
-                if (k.get("file") == finding.file and k.get("function") == finding.function
-                        and k.get("construct") == finding.construct):
+                if k.get("file") == finding.file and k.get("construct") == finding.construct:
                     return e
         return None
